@@ -363,8 +363,13 @@ class CallMixin:
                 if isinstance(fmt, (str, bytes)) and off is not None and isinstance(buf, SeqV) and buf.kind == 'bytes':
                     size = _struct.calcsize(fmt)
                     if not self.store.prove_ge0(buf.length() - off - size):
-                        self.may_raise(_struct.error, node, f'unpack_from needs {size} bytes at offset {off}',
-                                       wire='wire' in value_tags(buf))
+                        try:
+                            self.may_raise(_struct.error, node, f'struct.unpack_from needs {size} bytes at offset {off}',
+                                           wire='wire' in value_tags(buf))
+                        except Raised:
+                            # it raises exactly when the buffer is too short
+                            self.assume_ge0(off + size - 1 - buf.length())
+                            raise
                         self.assume_ge0(buf.length() - off - size)
                     part = seqops.slice_seq(self, buf, off, off + size)
                     self.event('slice', node, obj=buf, lo=off, hi=off + size, result=part)
@@ -833,6 +838,12 @@ def b_isinstance(it, args, kwargs, node):
         return ConstV(False)
     if isinstance(v, (ObjV, ExcV)):
         for n in names:
+            if isinstance(v.cls, type):
+                # an exception of a python class: related to python classes only
+                if isinstance(n, type) and issubclass(v.cls, n) or \
+                        isinstance(n, str) and n.split('.')[-1] in {c.__name__ for c in v.cls.__mro__}:
+                    return ConstV(True)
+                continue
             if not isinstance(n, str) and n is not None and hasattr(v.cls, 'mro') and n in v.cls.mro:
                 return ConstV(True)
         return ConstV(False)
